@@ -53,6 +53,9 @@ THEOREMS = [
     "Nix.C05.linked_frame_values_current_data",
     "Nix.C05.linked_frame_values_follow_writes",
     "Nix.C05.linked_frame_unit_label",
+    "Nix.C05.linked_frame_unit_never_refused",
+    "Nix.C05.linked_frame_unit_write_visible",
+    "Nix.C05.linked_frame_unit_follows_frame_writes",
     "Nix.C05.frame_link_replaces_ticks",
     "Nix.C05.relink_leads_to_new_target",
     "Nix.C05.shape_checks_before_writes",
@@ -68,8 +71,9 @@ ASSUMPTIONS = [
     "copy cases are checked by the implementation-side oracle only)",
     "array content is the exact rational value of the stored doubles; NumPy basic indexing with integers and one "
     "full slice is modelled by row-major offset arithmetic (Pure/DimLink.lean selectVector)",
-    "data frames are modelled in the one form the generators build (float columns with distinct names, one unit per "
-    "column, write_column by index); link_data_array handed a DataFrame (accepted by the code, which never looks at "
+    "data frames are modelled in the one form the generators build (float columns with distinct names, no units at all "
+    "or one unit / None per column, write_column by index, units assigned to the frame or through a dimension link; the "
+    "unit texts are fixed points of the unit sanitizer); link_data_array handed a DataFrame (accepted by the code, which never looks at "
     "the class of its argument) is not generated",
     "the pre-1.5 alias-range layout and polynomial calibration are outside the model (DimensionLink reads the "
     "stored values)",
@@ -86,7 +90,10 @@ MANIFEST = {
                   "(sources: its id occurs in the block's source tree), otherwise the graph is unchanged; a linked "
                   "range/set dimension reads the selected vector of the array's current data and the array's unit/label, "
                   "a range/set dimension linked to a column of a data frame (link_data_frame) reads that column of the frame's "
-                  "current rows, the column's unit and name, also after write_column through any path; a re-link leads to the "
+                  "current rows and the column's name, also after write_column through any path; its unit is what DataFrame.units "
+                  "shows for that column (None for a frame without units or an entry without unit), the read is never "
+                  "refused, and dim.unit = text / '' / None is an accepted write to the frame's units (frame with or without "
+                  "units) seen through the dimension and the frame alike, as is frame.units = ... through any path; a re-link leads to the "
                   "node handed in whatever id it carries; "
                   "explicit ticks and a link exclude each other after every dimension operation. The statement lists of "
                   "link_data_array / link_data_frame / remove_link / the ticks setter, the membership tests in front of "
@@ -101,7 +108,7 @@ MANIFEST = {
                   "links to arrays and frame columns) between such pairs.",
     "level_note": "Partial aspects: the invariant 'no range dimension has both ticks and a link' is proved to hold initially "
                   "and to be kept (for all descriptors of the file) by set-ticks, link_data_array, link_data_frame, remove_link, "
-                  "set-labels, unit/label writes, array data writes and frame column writes; the lift to arbitrary histories (Nix.C05.ExclusiveInvariant, kept as a statement) also needs "
+                  "set-labels, unit/label writes, array data writes, frame column writes and frame.units writes; the lift to arbitrary histories (Nix.C05.ExclusiveInvariant, kept as a statement) also needs "
                   "frame facts about append_*_dimension and the structural operations, which are only checked by the "
                   "correspondence. append_effect / linked-dimension theorems assume the fresh-key condition of the graph "
                   "(node? nextKey = none; C03's reachable_wf provides it for reachable graphs). Id-keeping copies occur "
@@ -219,8 +226,12 @@ class Impl5(Impl):
             v = getattr(e, a, None)
             return v if (v is None or isinstance(v, str)) else str(v)
 
+        units = None
+        if isinstance(e, nixio.DataFrame):
+            us = e.units                     # None for a frame without units, else one entry (text or None) per column
+            units = None if us is None else [None if u is None else str(u) for u in us]
         return {"ident": self.ident(e), "type": sattr("type"), "definition": sattr("definition"),
-                "unit": sattr("unit"), "label": sattr("label"), "data": data}
+                "unit": sattr("unit"), "label": sattr("label"), "data": data, "units": units}
 
     def read_dim(self, dim):
         kind = DIMKIND[type(dim)]
@@ -305,7 +316,14 @@ class Impl5(Impl):
             rows = [tuple(unfr(v) for v in r) for r in op[6]]
             df = owner.create_data_frame(self.name_arg(op[2]), op[3], col_names=list(op[4]),
                                          col_dtypes=[float] * len(op[4]), data=rows)
-            df.units = list(op[5])
+            if op[5] is not None:            # null: the frame stays without units (no `units` attribute)
+                df.units = list(op[5])
+            return None
+        if kind == "df_set_units":
+            df = self.nav(op[1])
+            if not isinstance(df, nixio.DataFrame):
+                raise AttributeError("units")
+            df.units = list(op[2])
             return None
         if kind == "df_write_col":
             df = self.nav(op[1])
@@ -363,6 +381,9 @@ ARR_NAMES = ["x", "y", "pos", "ext", "é"]
 SHAPES = [[2], [3], [4], [2, 3], [3, 2], [2, 2], [2, 2, 3], [1, 3], [3, 1, 2]]
 STRS = [None, "x", "mV", "s", "é", "label two"]
 UNITS = [None, "mV", "s", "x", "kg"]       # fixed points of the unit sanitizer
+DIM_UNITS = [None, "", "mV", "s", "kg"]    # assigned through a dimension: None, the empty text, texts
+# a frame is made without units (None: no `units` attribute), with a unit for every column, or with gaps
+FRAME_UNITS = [None, None, ["s", "mV", "kg"], ["s", None, "kg"], [None, None, None], ["s", "mV", "kg"]]
 LINK_LISTS = [("groups", "data_arrays", "data_array"), ("groups", "tags", "tag"), ("groups", "multi_tags", "multi_tag"),
               ("groups", "sources", "source"), ("tags", "references", "data_array"),
               ("multi_tags", "references", "data_array"), ("tags", "sources", "source"),
@@ -513,7 +534,10 @@ class Gen5:
             for fn in ("df", "x")[:rng.choice([1, 2])]:          # (a frame may share its name with an array)
                 nrows = rng.choice([2, 3])
                 rows = [[fr(i), fr(rng.randrange(-8, 8) / 2.0), fr(rng.randrange(5))] for i in range(nrows)]
-                self.do(["create_df", bp, fn, "t", ["t", "v", "w"], ["s", "mV", "kg"], rows], "create_df")
+                # every history has a frame without units (the first one made); the others: without, full, with gaps
+                units = None if (b == BLOCKS[0] and fn == "df") else rng.choice(FRAME_UNITS)
+                self.do(["create_df", bp, fn, "t", ["t", "v", "w"], units, rows],
+                        "create_df/" + ("no-units" if units is None else "units-with-gaps" if None in units else "units"))
             for g in ("g", "h")[:rng.choice([1, 2])]:
                 self.do(["create", bp, "group", g, "t", None])
             self.do(["create", bp, "tag", "tg", "t", None])
@@ -579,9 +603,9 @@ class Gen5:
         ents, dims, feats = survey(self.impl)
         weights = {
             "links": [("append", 0.3), ("role", 0.14), ("mutate", 0.2), ("write", 0.08), ("dim", 0.12), ("unlink", 0.06),
-                      ("delete", 0.04), ("feature", 0.06), ("fwrite", 0.02)],
+                      ("delete", 0.04), ("feature", 0.06), ("fwrite", 0.02), ("funit", 0.04)],
             "dims": [("dim", 0.5), ("write", 0.16), ("fwrite", 0.08), ("mutate", 0.12), ("append", 0.08), ("delete", 0.04),
-                     ("role", 0.04)],
+                     ("role", 0.04), ("funit", 0.12)],
         }[self.profile]
         r = rng.random() * sum(w for _, w in weights)
         action = weights[-1][0]
@@ -736,6 +760,61 @@ class Gen5:
             if tid is not None and ents.get(tid) is k:
                 self.do(["dim_read", ap, i], "dim_read/after-frame-write")
 
+    def frame_state(self, k):
+        """'no-units' / 'units' of the frame as the implementation shows it now"""
+        out = self.impl.run(["read", k.paths[0]])
+        return "no-units" if (out.get("ok") or {}).get("units") is None else "units"
+
+    def a_funit(self, ents, dims, feats):
+        """the unit of a frame column: assigned through a range dimension linked to the column (None, the empty
+        text, a text; the frame with or without units) or to the frame itself (`frame.units = …` through any
+        path); read through the dimension and through every path to the frame afterwards"""
+        rng = self.rng
+        linked = [(ap, i, ents[tid]) for ap, i, dkind, tid in dims
+                  if dkind == "dim_range" and tid is not None and tid in ents and ents[tid].kind == "data_frame"]
+        if not linked or rng.random() < 0.25:
+            # make such a link first: a range dimension (appended when the array has none) to a column
+            a = self.pick(ents, "data_array")
+            frames = [k for k in ents.values() if k.kind == "data_frame"]
+            bare = [k for k in frames if self.frame_state(k) == "no-units"]
+            if a is None or not frames:
+                return
+            tgt = rng.choice(bare if bare and rng.random() < 0.7 else frames)
+            ranges = [i for ap, i, dkind, _ in dims if ap == a.paths[0] and dkind == "dim_range"]
+            if ranges and rng.random() < 0.6:
+                i = rng.choice(ranges)
+            else:
+                self.do(["dim_append", a.paths[0], {"kind": "range", "ticks": None, "label": None, "unit": None}],
+                        "dim_append/range")
+                i = (self.do(["dim_count", a.paths[0]]).get("ok") or 0)
+                if not i:
+                    return
+            out = self.do(["dim_link_df", self.anypath(a), i, self.anypath(tgt), rng.randrange(3)], "dim_link_df/dim_range")
+            if "err" in out:
+                return
+            linked = [(a.paths[0], i, tgt)]
+        bare = [x for x in linked if self.frame_state(x[2]) == "no-units"]
+        ap, i, fk = rng.choice(bare if bare and rng.random() < 0.7 else linked)
+        state = self.frame_state(fk)
+        if rng.random() < (0.9 if state == "no-units" else 0.75):
+            # (a frame without units stays one only until the first unit is written: None and "" come first there)
+            v = rng.choice([None, "", None, "", "mV", "s"] if state == "no-units" else DIM_UNITS)
+            owner = next((k for k in ents.values() if k.paths[0] == ap), None)
+            self.do(["dim_set_attr", self.anypath(owner) if owner else ap, i, "unit", v],
+                    "dim_set_attr/frame-link/%s/%s" % (state, "None" if v is None else "empty" if v == "" else "text"))
+        else:
+            q = rng.random()
+            units = [rng.choice(UNITS) for _ in range(3)]
+            if q < 0.15:
+                units = units[:2]                                    # refused: one entry per column
+            self.do(["df_set_units", self.anypath(fk), units], "df_set_units/%s" % state)
+        self.do(["dim_read", ap, i], "dim_read/after-unit-write")
+        for fp in fk.paths:
+            self.do(["read", fp], "read")
+        for ap2, i2, _, tid in dims:
+            if tid is not None and ents.get(tid) is fk and (ap2, i2) != (ap, i):
+                self.do(["dim_read", ap2, i2], "dim_read/after-unit-write")
+
     def a_dim(self, ents, dims, feats):
         rng = self.rng
         r = rng.random()
@@ -803,7 +882,7 @@ class Gen5:
             self.do(["dim_set_labels", via, i, rng.choice([["p", "q"], ["é"], []])], "dim_set_labels/" + dkind)
         else:
             attr = rng.choice(["unit", "label", "label", "ticks"])
-            self.do(["dim_set_attr", via, i, attr, rng.choice(UNITS if attr == "unit" else STRS)], "dim_set_attr/" + dkind)
+            self.do(["dim_set_attr", via, i, attr, rng.choice(DIM_UNITS if attr == "unit" else STRS)], "dim_set_attr/" + dkind)
         self.do(["dim_read", ap, i], "dim_read")
         out = self.outs[-1].get("ok") or {}
         if out.get("has_link") and isinstance(out.get("target"), list):
@@ -1040,6 +1119,15 @@ def _brief(e):
 COPY_BLOCK = "b1c"          # an id-keeping copy of the first block: every entity in it shares name AND id with its original
 STORES = (("data_arrays", "data_array"), ("tags", "tag"), ("multi_tags", "multi_tag"), ("groups", "group"))
 DF_COLS = [("t", "s"), ("v", "mV"), ("w", "kg")]
+# the oracle's frames: made without units (None), with a unit per column, or with gaps
+DF_UNIT_FORMS = [None, [u for _, u in DF_COLS], ["s", None, "kg"], None, [None, None, None]]
+
+
+def _col_unit(frame, col):
+    """the unit `DataFrame.units` shows for one column (None for a frame without units)"""
+    us = frame.units
+    return None if us is None else us[col]
+
 
 
 class Scene:
@@ -1114,8 +1202,12 @@ class Scene:
             rows = [(float(i), rng.randrange(-8, 8) / 2.0, float(rng.randrange(5))) for i in range(3)]
             df = b.create_data_frame("df", "t", col_names=[c for c, _ in DF_COLS], col_dtypes=[float] * len(DF_COLS),
                                      data=rows)
-            df.units = [u for _, u in DF_COLS]
-            self.frames[bn] = {"cols": list(DF_COLS), "rows": [list(r) for r in rows]}
+            form = rng.choice(DF_UNIT_FORMS)
+            if form is not None:
+                df.units = list(form)
+            notes.append("frame %s/df %s" % (bn, "without units" if form is None else "units %r" % (form,)))
+            self.frames[bn] = {"cols": [(c, None if form is None else form[k]) for k, (c, _) in enumerate(DF_COLS)],
+                               "rows": [list(r) for r in rows], "has_units": form is not None}
         except Exception as ex:
             notes.append("create_data_frame: %s" % type(ex).__name__)
         for what in ("x2", "tg2", "mt2"):       # id-keeping copies inside the block
@@ -1135,7 +1227,8 @@ class Scene:
         b = self.f.blocks[bn]
         if bn == COPY_BLOCK and BLOCKS[0] in self.frames:
             self.frames[bn] = {"cols": list(self.frames[BLOCKS[0]]["cols"]),
-                               "rows": [list(r) for r in self.frames[BLOCKS[0]]["rows"]]}
+                               "rows": [list(r) for r in self.frames[BLOCKS[0]]["rows"]],
+                               "has_units": self.frames[BLOCKS[0]]["has_units"]}
         for cname, kind in STORES:
             for e in getattr(b, cname):
                 self.reg(bn, kind, e.name, "block." + cname,
@@ -1727,6 +1820,8 @@ class Scene:
             self.log.append(["remove_link", list(dk)])
             dim.remove_link()
             self.dim_unlinked(dk, rec)
+        elif "frame" in rec and rec["kind"] == "range":
+            self.frame_unit_step(dk, rec, dim)
         elif "link" in rec and rec["kind"] == "range":
             val = rng.choice(["mV", "s", None])
             self.log.append(["set unit through the dimension", list(dk), val])
@@ -1736,6 +1831,69 @@ class Scene:
             self.evals += 1
             if got != val:
                 self.fail("unit set through a linked dimension is not the array's unit", got, val, "dimlink-unit")
+        self.check_dims()
+
+    def check_frame_units(self, bn, why):
+        """`DataFrame.units` of the block's frame against the oracle's record (None: the frame has no units)"""
+        fr_ = self.frames[bn]
+        self.evals += 1
+        got = self.f.blocks[bn].data_frames["df"].units
+        got = None if got is None else list(got)
+        want = [u for _, u in fr_["cols"]] if fr_["has_units"] else None
+        if got != want:
+            self.fail("the units of data frame %s/df are not what was assigned (%s)" % (bn, why), got, want, "frame-units")
+
+    def frame_unit_step(self, dk, rec, dim):
+        """the unit of a frame column, assigned through the range dimension linked to it (a text, the empty text,
+        None; the frame with or without units) or to the frame itself: an accepted write to the FRAME, seen through
+        the dimension, through `DataFrame.units` and through every other dimension linked to the frame"""
+        rng = self.rng
+        bn, c = rec["frame"]
+        fr_ = self.frames[bn]
+        if rng.random() < 0.75:
+            val = rng.choice([None, "", "mV", "s", "kg"])
+            self.log.append(["set unit through the dimension linked to a frame column", list(dk), [bn, "df", c], val,
+                             "frame has units" if fr_["has_units"] else "frame WITHOUT units"])
+            self.evals += 1
+            try:
+                dim.unit = val
+            except Exception as ex:
+                self.fail("assigning unit %r through a dimension linked to column %d of a data frame %s raised %s: %s"
+                          % (val, c, "with units" if fr_["has_units"] else "without units", type(ex).__name__, ex),
+                          type(ex).__name__, "accepted (the column's unit in the frame's units)", "dimlink-unit")
+                return
+            fr_["cols"][c] = (fr_["cols"][c][0], val or None)
+            fr_["has_units"] = True
+            self.check_frame_units(bn, "unit %r assigned through dimension %s/%s#%d" % ((val,) + dk))
+        else:
+            units = [rng.choice([None, "mV", "s", "kg"]) for _ in fr_["cols"]]
+            self.log.append(["frame.units =", bn, "df", units])
+            self.f.blocks[bn].data_frames["df"].units = units
+            fr_["cols"] = [(nm, u) for (nm, _), u in zip(fr_["cols"], units)]
+            fr_["has_units"] = True
+            self.check_frame_units(bn, "assigned to the frame")
+
+    def do_frame_unit(self):
+        """a unit write to a frame column through a range dimension linked to it (the link is made when none exists)"""
+        rng = self.rng
+        cands = [dk for dk, rec in self.dimrec.items() if "frame" in rec and rec["kind"] == "range"]
+        if not cands:
+            if not self.frames:
+                return
+            akey = rng.choice([k for k in self.paths if k[1] == "data_array"])
+            adesc, a = self.get(akey)
+            bn = rng.choice(sorted(self.frames))
+            c = rng.randrange(len(self.frames[bn]["cols"]))
+            i = len(a.dimensions) + 1
+            dk = (akey[0], akey[2], i)
+            self.log.append(["append_range_dimension; link_data_frame", list(dk), bn, "df", c, "via " + adesc])
+            d = a.append_range_dimension()
+            d.link_data_frame(self.f.blocks[bn].data_frames["df"], c)
+            self.dimrec[dk] = {"kind": "range", "frame": (bn, c)}
+            cands = [dk]
+        dk = rng.choice(cands)
+        dim = self.f.blocks[dk[0]].data_arrays[dk[1]].dimensions[dk[2] - 1]
+        self.frame_unit_step(dk, self.dimrec[dk], dim)
         self.check_dims()
 
     def check_dims(self):
@@ -1983,10 +2141,16 @@ def audit_file(f, log):
                     if got != exp:
                         fails.append(Failure("dimension %s#%d linked to a frame column does not report the column's current "
                                              "values" % (a.name, i + 1), list(log), got, exp, "audit-dimlink"))
-                    if isinstance(d, RangeDimension) and (d.unit != tgt.units[col] or d.label != tgt.column_names[col]):
-                        fails.append(Failure("range dimension %s#%d linked to a frame column does not report the column's "
-                                             "unit and name" % (a.name, i + 1), list(log), [d.unit, d.label],
-                                             [tgt.units[col], tgt.column_names[col]], "audit-dimlink"))
+                    if isinstance(d, RangeDimension):
+                        want = [_col_unit(tgt, col), tgt.column_names[col]]
+                        try:
+                            got = [d.unit, d.label]
+                        except Exception as ex:
+                            got = "%s: %s" % (type(ex).__name__, ex)
+                        if got != want:
+                            fails.append(Failure("range dimension %s#%d linked to a frame column does not report the "
+                                                 "column's unit and name" % (a.name, i + 1), list(log), got, want,
+                                                 "audit-dimlink"))
                     continue
                 tgt = nixio.DataArray(f, b, dl._linked_group())
                 cur = np.array(tgt[:])
@@ -2039,6 +2203,77 @@ def _audit_hint(ctx, hint, tag):
     return fails, n
 
 
+def _frame_unit_fixed(ctx):
+    """fixed defect (nixio `fix:` "unit of a dimension linked to a frame column"): the unit of a range dimension
+    linked to a column of a frame WITHOUT units could neither be read nor assigned (TypeError: 'NoneType' object is
+    not subscriptable / iterable), None could not be assigned even when the frame had units (a list holding None
+    went to the attribute), and an entry without unit read '' through the dimension but None through the frame"""
+    from collections import OrderedDict
+    path = ctx.tmpfile("c05-oracle-frame-unit.nix")
+    log = [["create_block b; frames u (col_dict x:int, y:float only - no units) and v (same columns, units ['s', None]); "
+            "array a = [1.0, 2.0] with two range dimensions: #1 link_data_frame(u, 0), #2 link_data_frame(v, 1)"]]
+    fails = []
+    evals = 0
+    f = nixio.File.open(path, nixio.FileMode.Overwrite)
+    try:
+        b = f.create_block("b", "t")
+        u = b.create_data_frame("u", "t", col_dict=OrderedDict([("x", int), ("y", float)]))
+        v = b.create_data_frame("v", "t", col_dict=OrderedDict([("x", int), ("y", float)]))
+        v.units = ["s", None]
+        a = b.create_data_array("a", "t", data=[1.0, 2.0])
+        ru = a.append_range_dimension()
+        ru.link_data_frame(u, 0)
+        rv = a.append_range_dimension()
+        rv.link_data_frame(v, 1)
+
+        def units(df):
+            us = df.units
+            return None if us is None else list(us)
+
+        def assign(dim, val):
+            dim.unit = val
+            return True
+
+        steps = [
+            ("read a.dimensions[0].unit / .label, u.units (frame without units)", lambda: [ru.unit, ru.label, units(u)],
+             [None, "x", None]),
+            ("read a.dimensions[1].unit / .label, v.units (column without unit)", lambda: [rv.unit, rv.label, units(v)],
+             [None, "y", ["s", None]]),
+            ("a.dimensions[0].unit = 'mV' (frame without units)", lambda: assign(ru, "mV") and [ru.unit, units(u)],
+             ["mV", ["mV", None]]),
+            ("a.dimensions[0].unit = None", lambda: assign(ru, None) and [ru.unit, units(u)], [None, [None, None]]),
+            ("a.dimensions[1].unit = 'kg' (column without unit)", lambda: assign(rv, "kg") and [rv.unit, units(v)],
+             ["kg", ["s", "kg"]]),
+            ("a.dimensions[1].unit = None (frame with units)", lambda: assign(rv, None) and [rv.unit, units(v)],
+             [None, ["s", None]]),
+            ("a.dimensions[1].unit = '' (frame with units)", lambda: assign(rv, "") and [rv.unit, units(v)],
+             [None, ["s", None]]),
+            ("v.units = ['ms', 'mV']; read a.dimensions[1].unit", lambda: setattr(v, "units", ["ms", "mV"]) or rv.unit, "mV"),
+        ]
+        for what, fn, want in steps:
+            evals += 1
+            log.append([what])
+            try:
+                got = fn()
+            except Exception as ex:
+                fails.append(Failure("%s raised %s: %s" % (what, type(ex).__name__, ex), list(log), type(ex).__name__,
+                                     want, "dimlink-unit"))
+                continue
+            if got != want:
+                fails.append(Failure("%s: the dimension and the frame do not show the unit that was assigned" % what,
+                                     list(log), got, want, "dimlink-unit"))
+    finally:
+        try:
+            f.close()
+        except Exception:
+            pass
+        try:
+            os.remove(path)
+        except OSError:
+            pass
+    return fails, evals
+
+
 def _scene_run(ctx, rng, steps, tag):
     sc = Scene(ctx, rng, tag, rng.choice([2, 3]))
     try:
@@ -2046,7 +2281,7 @@ def _scene_run(ctx, rng, steps, tag):
         sc.refused_link_keeps_ticks()
         acts = [(sc.do_append, 0.26), (sc.do_role, 0.1), (sc.do_feature, 0.07), (sc.do_metadata, 0.07),
                 (sc.do_mutate, 0.16), (sc.do_write, 0.1), (sc.do_dim, 0.22), (sc.reopen, 0.04),
-                (sc.do_calib, 0.05), (sc.do_feature_data, 0.06), (sc.do_frame_write, 0.03)]
+                (sc.do_calib, 0.05), (sc.do_feature_data, 0.06), (sc.do_frame_write, 0.03), (sc.do_frame_unit, 0.06)]
         tot = sum(w for _, w in acts)
         for _ in range(steps):
             r = rng.random() * tot
@@ -2086,6 +2321,13 @@ def oracle(ctx, broken, hints):
                          [["copy scenario"]], type(ex).__name__, "no exception", "oracle-step")], 0
     failures += fs
     evals += e
+    try:
+        fs, e = _frame_unit_fixed(ctx)
+    except Exception as ex:
+        fs, e = [Failure("the frame-column unit scenario raised %s: %s" % (type(ex).__name__, ex),
+                         [["frame unit scenario"]], type(ex).__name__, "no exception", "oracle-step")], 0
+    failures += fs
+    evals += e
     for hi, hint in enumerate(hints[:6]):          # the disagreeing histories first
         fs, e = _audit_hint(ctx, hint, str(hi))
         failures += fs
@@ -2108,7 +2350,7 @@ def oracle(ctx, broken, hints):
         if key not in best or len(core.canon(f.input)) < len(core.canon(best[key].input)):
             best[key] = f
     out = sorted(best.values(), key=lambda f: len(core.canon(f.input)))
-    return {"evaluations": evals, "failures": out, "scenarios": n + 1}
+    return {"evaluations": evals, "failures": out, "scenarios": n + 2}
 
 
 def matches_known(entry, failure):
